@@ -5,6 +5,7 @@ import (
 	"errors"
 	"fmt"
 	"io"
+	"strings"
 
 	"verif/harness/kit"
 )
@@ -21,6 +22,11 @@ type Script struct {
 	// net/http reports for a body that was cut short), wrapped-eof (an error that wraps io.EOF), closed-pipe
 	FailErr  string `json:"fail_err,omitempty"`
 	Closable bool   `json:"closable"` // the stream also implements io.Closer
+	// Std: the stream is a standard-library reader that its owner has read Skip bytes of already (a magic number, a
+	// header line): "bytes.Reader", "strings.Reader", "io.SectionReader". What is left in it is Data. Only for streams
+	// that do not fail and cannot be closed. (r10)
+	Std  string `json:"std,omitempty"`
+	Skip int    `json:"skip,omitempty"`
 }
 
 func (s Script) failure() error {
@@ -94,6 +100,20 @@ func (r readCloser) Close() error { r.reader.closed++; return nil }
 
 func (s Script) open() (*reader, io.Reader) {
 	r := &reader{s: s}
+	if s.Std != "" && !s.fails() && !s.Closable {
+		whole := append(bytes.Repeat([]byte{'#'}, s.Skip), []byte(s.Data)...)
+		var std io.Reader
+		switch s.Std {
+		case "bytes.Reader":
+			std = bytes.NewReader(whole)
+		case "strings.Reader":
+			std = strings.NewReader(string(whole))
+		default:
+			std = io.NewSectionReader(bytes.NewReader(whole), 0, int64(len(whole)))
+		}
+		_, _ = io.CopyN(io.Discard, std, int64(s.Skip))
+		return r, std
+	}
 	if s.Closable {
 		return r, readCloser{r}
 	}
